@@ -112,7 +112,15 @@ struct Engine
     using G = Glue<Cfg>;
     static constexpr size_t NF = Cfg::NF;
 
-    static Vec make(Rng& rng, size_t n, size_t extra_cap, const std::vector<size_t>& fixed, Arena& arena, uint64_t& next_id)
+    static uint64_t digest_model(const MElem& e)
+    {
+        uint64_t d = 0;
+        for (auto& fl : e.f)
+            for (auto x : fl) d = d * 31 + static_cast<uint64_t>(x);
+        return d;
+    }
+
+    static Vec make(Rng& rng, size_t n, size_t extra_cap, const std::vector<size_t>& fixed, Arena& arena, uint64_t& next_id, std::vector<MElem>* model = nullptr)
     {
         std::vector<MElem> es;
         size_t payload = 0;
@@ -145,6 +153,7 @@ struct Engine
         };
         Vec v = mk();
         for (auto& e : es) G::emplace_back(v, e);
+        if (model) *model = es;
         return v;
     }
 
@@ -301,14 +310,19 @@ struct Engine
         for (size_t i = 0; i < Cfg::N_FIXED; ++i) fixed.push_back(1 + static_cast<size_t>(rng.below(3)));
         // the shared objects live in arenas that only the main thread uses (before the threads start and after they ended)
         Arena arena_a, arena_b, arena_e, arena_s;
-        const Vec a = make(rng, 2 + static_cast<size_t>(rng.below(4)), static_cast<size_t>(rng.below(3)), fixed, arena_a, next_id);
+        std::vector<MElem> model_a, model_b, model_s;
+        const size_t a_n = 2 + static_cast<size_t>(rng.below(4)), a_extra = static_cast<size_t>(rng.below(3));
+        const Vec a = make(rng, a_n, a_extra, fixed, arena_a, next_id, &model_a);
+        const size_t a_capacity = a_n + a_extra;
         uint64_t id2 = rng.chance(1, 2) ? 1 : next_id;
-        const Vec b = make(rng, static_cast<size_t>(rng.below(5)), 1, fixed, arena_b, id2);
+        const size_t b_n = static_cast<size_t>(rng.below(5));
+        const Vec b = make(rng, b_n, 1, fixed, arena_b, id2, &model_b);
+        const size_t b_capacity = b_n + 1;
         std::optional<E> shared_elem;
         {
             // taken from a scratch vector so that the shared vectors stay untouched
             uint64_t id3 = 1;
-            Vec scratch = make(rng, 1, 0, fixed, arena_s, id3);
+            Vec scratch = make(rng, 1, 0, fixed, arena_s, id3, &model_s);
             shared_elem.emplace(std::move(scratch[0]), typename E::allocator_type{arena_e});
         }
         // a read-only use must leave the shared objects as they were (also visible without any race detector)
@@ -319,7 +333,12 @@ struct Engine
             for (auto&& r : b) d = d * 37 + digest(r);
             return d + a.size() * 7 + b.size() * 11 + a.capacity() + b.capacity();
         };
-        const uint64_t state_before = state();
+        // what the shared objects hold is known from how they were built: the main thread does not touch them before the threads
+        // start (a const call made here could already refresh a lazily maintained cache and hide its race)
+        uint64_t state_before = digest_model(model_s[0]) * 1000003;
+        for (auto& e : model_a) state_before = state_before * 31 + digest_model(e);
+        for (auto& e : model_b) state_before = state_before * 37 + digest_model(e);
+        state_before += model_a.size() * 7 + model_b.size() * 11 + a_capacity + b_capacity;
         g_go.store(false, std::memory_order_relaxed);
         std::vector<std::thread> ts;
         const int writers = std::max(1, threads / 4);
